@@ -246,7 +246,8 @@ PROPS["C18"] = {
 PROPS["C06"] = {
     "skeleton_fns": SUP_STATE + ["supervisor_PIDZero_Shutdown", "supervisor_PIDZero_startRunnable", "supervisor_PIDZero_reloadAllRunnables"],
     "lean_modules": ["GoSup.Props.C06"],
-    "theorems": ["GoSup.Props.C06.c06_converges_partial", "GoSup.Props.C06.c06_snapshot_partial", "GoSup.Props.C06.c06_dedup",
+    "theorems": ["GoSup.Props.C06.c06_converges_partial", "GoSup.Props.C06.c06_snapshot", "GoSup.Props.C06.c06_snapshot_at_rest",
+                 "GoSup.Props.C06.c06_snapshot_partial", "GoSup.Props.C06.c06_dedup",
                  "GoSup.Props.C06.c06_after_exit", "GoSup.Props.C06.c06_store_is_last_word", "GoSup.Props.C06.c06_reload_store_broadcasts",
                  "GoSup.Props.C06.c06_close_once",
                  "GoSup.Props.C06.c06_f1_pinned_late_subscription", "GoSup.Props.C06.c06_stale_store"],
@@ -321,9 +322,11 @@ for _pid, _thms, _text in [
              "GoSup.Props.C01.c01_cancel_only_after_all_stops"],
      "Invariant proofs over the supervisor LTS for any number of runnables, callers and any schedule: the Stop events are always a "
      "prefix of the reverse-order, one-at-a-time sequence; complete when Run()/Shutdown() return; no assumption on runnables."),
-    ("C02", ["GoSup.Props.C02.c02_no_panic"],
-     "Invariant proof that the panic transition (send on the closed error channel) is unreachable for any runnable behaviour; prompt "
-     "and bounded termination are checked on traces by the Lean statement and the model acceptor (liveness theorems: see DESIGN.md)."),
+    ("C02", ["GoSup.Props.C02.c02_no_panic", "GoSup.Props.C02.c02_body_never_stuck", "GoSup.Props.C02.c02_body_can_finish"],
+     "Invariant proof that the panic transitions (send on the closed error channel, addition to the WaitGroup during Shutdown's wait) "
+     "are unreachable for any runnable behaviour; progress theorems for the body of Shutdown() in every state: its next action is "
+     "always enabled except inside a Stop() call (the property's hypothesis), the timer bounds the wait, and for any number of "
+     "runnables the body can be run to its end. That Run()/Shutdown() return promptly in real time is checked on traces."),
     ("C03", ["GoSup.Props.C03.c03_gated", "GoSup.Props.C03.c03_no_launch_after_abort", "GoSup.Props.C03.c03_invoke_once",
              "GoSup.Props.C03.c03_gate_exit"],
      "Invariant proof over the supervisor LTS for any number of runnables and any schedule: when a runnable's Run has been invoked, "
